@@ -613,9 +613,14 @@ def run_haplotag(
                 read_to_haplotype = None
 
             assert not include_unmapped or len(regions) == 1
-            for start, end in regions:
+            # An alignment overlapping several of the requested regions must be written only once:
+            # visit the regions from left to right and skip what an earlier region already covered
+            covered_until = 0
+            for start, end in sorted(regions, key=lambda region: region[0]):
                 logger.debug("Working on %s:%s-%s", chrom, start, end)
                 for alignment in bam_reader.fetch(contig=chrom, start=start, stop=end):
+                    if alignment.reference_start < covered_until:
+                        continue
                     n_alignments += 1
                     haplotype_name = "none"
                     phaseset = "none"
@@ -661,6 +666,7 @@ def run_haplotag(
 
                     if n_alignments % 100_000 == 0:
                         logger.debug(f"Processed {n_alignments} alignment records.")
+                covered_until = float("inf") if end is None else max(covered_until, end)
         if include_unmapped:
             logger.debug("Copying unmapped reads to output")
             for alignment in bam_reader.fetch(contig="*"):
